@@ -37,6 +37,12 @@ func (c *gcase) text() string {
 	return sb.String()
 }
 
+// allText is everything the case sends: the document as such and as embedded
+// (possibly mutated) in the HTTP body and the websocket frames.
+func (c *gcase) allText() string {
+	return c.Query + "\n" + c.HTTPBody + "\n" + strings.Join(c.WS, "\n")
+}
+
 func (c *gcase) witness() map[string]interface{} {
 	return map[string]interface{}{
 		"schema": c.Schema, "query": c.Query, "query_quoted": strconv.Quote(c.Query), "variables_json": c.VarsJSON,
